@@ -357,6 +357,35 @@ class CoreCheck:
             raise L.ToolError(f"vacuity: TLC found no counterexample with {consts['Impl']} in {name}")
         return r
 
+    def _report(self, trace, label, prefix, items, known):
+        """Turns monitor violations / conformance differences of one validated trace file into verdicts.
+        A known finding excuses only the monitors it is known to falsify, in runs that show its mechanism;
+        conformance differences are never excused (the open findings are part of the model)."""
+        seen_runs, kf_runs = set(), set()
+        open_kf = {f["id"]: f for f in L.load_known_findings() if f.get("status") == "open" and f["id"] in known}
+        kf_hits = 0
+        for x in items:
+            if open_kf and "prop" in x:
+                lines = run_lines(trace, x["run"])
+                hit = next((fid for fid in open_kf if x["prop"] in KF_MONITORS[fid] and SIGNATURES[fid](lines)), None)
+                if hit:
+                    if (x["run"], hit) not in kf_runs:
+                        kf_runs.add((x["run"], hit))
+                        kf_hits += 1
+                        self.v.known_finding(f"{hit}: {open_kf[hit]['what'][:160]}")
+                    continue
+            if x["run"] in seen_runs:
+                continue
+            seen_runs.add(x["run"])
+            rp = os.path.join(L.REPLAYS, f"{self.pid}-{label}-seed{self.seed}-run{x['run']}.ndjson")
+            os.makedirs(L.REPLAYS, exist_ok=True)
+            extract_run(trace, x["run"], rp)
+            what = (f"{prefix}monitor {x['prop']} false at step {x['i']} ({x['ev']})" if "prop" in x else
+                    f"{prefix}conformance: {diff_field(x)} differs at step {x['i']} ({x['ev']}) client={x.get('c')}: "
+                    f"pred={str(x.get('pred'))[:300]} obs={str(x.get('obs'))[:300]}")
+            self.v.violation(rp, what)
+        return kf_hits, open_kf
+
     # ---- 3. trace validation of real executions
     def validate_profile(self, profile, runs, monitors_only=False, extra_monitors=(), extra_fields=(), known=()):
         trace = os.path.join(self.wd, f"{profile}.ndjson")
@@ -370,32 +399,7 @@ class CoreCheck:
         other = len(viols) - len(mine_v) + len(diffs) - len(mine_d)
         self.profiles[profile] = {"runs": runs, "events": lines, "diffs": done["diffs"], "viols": done["viols"],
                                   "attributed_to_this_property": len(mine_v) + len(mine_d), "panics": panics}
-        seen_runs = set()
-        open_kf = {f["id"]: f for f in L.load_known_findings() if f.get("status") == "open" and f["id"] in known}
-        kf_hits = 0
-        kf_runs = set()
-        for x in mine_v + mine_d:
-            # a known finding excuses only the monitors it is known to falsify, in runs that show its
-            # mechanism; conformance differences are never excused (the findings are part of the model)
-            if open_kf and "prop" in x:
-                lines = run_lines(trace, x["run"])
-                hit = next((fid for fid in open_kf if x["prop"] in KF_MONITORS[fid] and SIGNATURES[fid](lines)), None)
-                if hit:
-                    if (x["run"], hit) not in kf_runs:
-                        kf_runs.add((x["run"], hit))
-                        kf_hits += 1
-                        self.v.known_finding(f"{hit}: {open_kf[hit]['what'][:160]}")
-                    continue
-            if x["run"] in seen_runs:
-                continue
-            seen_runs.add(x["run"])
-            rp = os.path.join(L.REPLAYS, f"{self.pid}-{profile}-seed{self.seed}-run{x['run']}.ndjson")
-            os.makedirs(L.REPLAYS, exist_ok=True)
-            extract_run(trace, x["run"], rp)
-            what = (f"monitor {x['prop']} false at step {x['i']} ({x['ev']})" if "prop" in x else
-                    f"conformance: {diff_field(x)} differs at step {x['i']} ({x['ev']}) client={x.get('c')}: "
-                    f"pred={str(x.get('pred'))[:300]} obs={str(x.get('obs'))[:300]}")
-            self.v.violation(rp, what)
+        kf_hits, open_kf = self._report(trace, profile, "", mine_v + mine_d, known)
         if known and profile.startswith("kf_") and kf_hits == 0 and open_kf:
             self.notes.append(f"{profile}: the scripted history of {sorted(open_kf)} no longer violates the property "
                               f"- known_findings.json is out of date")
@@ -413,7 +417,7 @@ class CoreCheck:
         return trace
 
     # ---- 3b. spec -> implementation: behaviours chosen by TLC are executed on the real apps
-    def replay_behaviours(self, name, consts, num, depth=60, timeout=600):
+    def replay_behaviours(self, name, consts, num, depth=60, timeout=600, extra_monitors=(), extra_fields=(), known=()):
         """TLC random walks (simulation mode) of MC_Core with the behaviour log on; every walk that reaches
         the settle phase is executed step by step on the real apps and the recorded trace is validated."""
         consts = dict(consts, Emit="TRUE")
@@ -439,23 +443,15 @@ class CoreCheck:
         diffs, viols, done = validate_trace(self.sd, trace, self.wd)
         self.traces += summary["runs"]
         self.trace_events += done["lines"]
-        mine_v = [x for x in viols if self.pid in MONITOR_PROPS.get(x["prop"], [])]
-        mine_d = [x for x in diffs if self.pid in props_of_diff(x) or x["kind"] == "enabled"]
+        mine_v = [x for x in viols if self.pid in MONITOR_PROPS.get(x["prop"], []) or x["prop"] in extra_monitors]
+        mine_d = [x for x in diffs if self.pid in props_of_diff(x) or x["kind"] == "enabled"
+                  or diff_field(x).rsplit(".", 1)[0] in extra_fields]
         self.profiles[name + " (TLC behaviours replayed)"] = {
             "behaviours": summary["runs"], "events": done["lines"], "diffs": done["diffs"], "viols": done["viols"],
             "not_enabled_in_real_apps": summary["not_enabled"], "attributed_to_this_property": len(mine_v) + len(mine_d)}
-        seen = set()
-        for x in mine_v + mine_d:
-            if x["run"] in seen:
-                continue
-            seen.add(x["run"])
-            rp = os.path.join(L.REPLAYS, f"{self.pid}-{name}-seed{self.seed}-run{x['run']}.ndjson")
-            os.makedirs(L.REPLAYS, exist_ok=True)
-            extract_run(trace, x["run"], rp)
-            what = (f"replayed TLC behaviour: monitor {x['prop']} false at step {x['i']}" if "prop" in x else
-                    f"replayed TLC behaviour: {diff_field(x)} differs at step {x['i']} ({x['ev']}): "
-                    f"pred={str(x.get('pred'))[:300]} obs={str(x.get('obs'))[:300]}")
-            self.v.violation(rp, what)
+        kf_hits, _ = self._report(trace, name, "replayed TLC behaviour: ", mine_v + mine_d, known)
+        if known:
+            self.profiles[name + " (TLC behaviours replayed)"]["runs_matching_known_findings"] = kf_hits
         self.samples.append({"kind": "TLC-generated behaviour replayed on the real apps", "steps": behs[0][:14]})
         return trace
 
